@@ -38,19 +38,34 @@ RULE = ("cases = (recovery mechanism, family, destination address, destination p
         "within one association; pf also as whole sessions (real FirewallClient and real firewall.main('pf') loop over a "
         "socket pair) interleaving HOST lines, some with a failing hosts-file rewrite, and 2-8 connections; distinct = distinct canonical model-input line(s)")
 MANIFEST = dict(
-    level_text=("Machine-checked Lean 4 theorems over a statement-by-statement model of original_dst, the tproxy/ipfw "
-                "cmsg decoding, the pf QUERY_PF_NAT dialogue, the CONNECT / UDP header encoders of the client, the "
-                "server's new_channel / udp_req parsers and the self-address guard, and of the library printers and "
-                "parsers on the path (str(IPv4Address), str(IPv6Address), inet_ntop, inet_pton, int): for every "
-                "address, port and family the destination the server hands to connect/sendto is the one the kernel "
-                "reported. The model is tied to the code on every run by a differential run of the real functions "
-                "(fake sockets returning hand-built kernel byte strings; real Mux; real server.main closures) and an "
-                "oracle on the real code."),
-    level_note=("Trusted: Lean kernel; axioms propext/Classical.choice/Quot.sound only; the correspondence harness; "
-                "the kernel's sockaddr / cmsg layouts and pf's DIOCNATLOOK (modelled from the headers, not "
-                "validated: nothing here can run pf); libc/CPython text functions are modelled and checked "
-                "differentially, not verified; islocal()'s bind probe is an input."),
-    technique="Lean 4 proof (round-trip / refinement lemmas on byte and text codecs) + differential correspondence with the real code",
+    level_text=("Machine-checked Lean 4 theorems (core only, axioms propext/Classical.choice/Quot.sound) over a "
+                "statement-by-statement model of original_dst, the tproxy/ipfw cmsg decoding, the pf QUERY_PF_NAT "
+                "dialogue and its line channel, onaccept_tcp (self guard, CONNECT), onaccept_udp (association table, "
+                "refresh, expiry), the server's new_channel / udp_req, and of the library printers/parsers on the path. "
+                "Proved for all inputs: (TCP) one round-trip theorem C05_tcp_roundtrip: for every IPv4 / IPv6 / scoped "
+                "link-local address, every port and every client family number the server parses the CONNECT payload "
+                "back to exactly the text and port sent, opens AF_INET iff IPv4, and the text denotes the dialled "
+                "address (parse after print = id for all 2^32 and all 2^128 addresses, both IPv6 printers); kernel "
+                "sockaddr_in/sockaddr_in6 decoding for all bytes; self guard independent of the listener's bind "
+                "address. (UDP) C05_udp_sequence / C05_udp_association_kept: for every sequence of datagrams, sources, "
+                "destinations and clock readings each UDP_DATA decodes on the server to that datagram's own "
+                "destination and payload, and the sweep never closes the association just used. (cmsg) C05_cmsg_total / "
+                "C05_cmsg_truncated / C05_cmsg_buffer: for every ancillary list an 'ok' result is the decode of the "
+                "first recognised ORIGDSTADDR item at the real offsets, a truncated item never yields an address, and "
+                "the CMSG_SPACE(24) the code asks for suffices for both families while CMSG_SPACE(16) does not. (pf) "
+                "marshalling on three platform layouts, one reply per request, C05_pf_session_pairing / "
+                "_destinations over every interleaving of HOST lines and queries. The model is tied to the code on "
+                "every run by pinned format strings / statement shapes and a differential run of the real functions."),
+    level_note=("Decided by correspondence/oracle only (not by theorem): that the Lean model equals the Python (differential "
+                "run: fake sockets with hand-built kernel byte strings, real Mux, real server.main closures, real "
+                "FirewallClient <-> real firewall.main('pf') over a socket pair, scripted clock); the libc/CPython "
+                "functions (inet_ntop, inet_pton, str(IPv6Address), int, split) are modelled and compared with the real "
+                "ones, not verified; Linux put_cmsg truncation is modelled and compared with real loopback sockets on "
+                "every run. Trusted/assumed: kernel sockaddr/cmsg layouts and pf's DIOCNATLOOK (pf cannot run here); "
+                "getsockname() printing like inet_ntop (optionally with %zone); the server's connect/sendto parsing a "
+                "numeric host like inet_pton and a %zone suffix via getaddrinfo; islocal()'s bind probe is an input; "
+                "channel-id allocation (next_channel) is an input of the UDP/TCP theorems (C06 covers it)."),
+    technique="Lean 4 proof (round-trip / refinement / invariant lemmas on byte and text codecs and tables) + differential correspondence with the real code",
 )
 DRIVER_TARGETS = ['SshuttleModel.Code.Dst']
 ASSUMPTIONS = [
@@ -1030,12 +1045,17 @@ def run_udp_seq(ctx, env, logs, case):
     lg = Log('udp-seq')
     lg.add('udpnew', 'ok')
     bad = None
+    clock = [case.get('t0', 1000)]
+    real_time = client.time
+    client.time = types.SimpleNamespace(time=lambda: float(clock[0]))     # the clock is an input
     try:
         for i, d in enumerate(case['dgrams']):
+            clock[0] += d.get('dt', 0)
             addr, port, data = common.unhex(d['addr']), d['port'], common.unhex(d['data'])
             cm = (int(socket.SOL_IP), 20, sockaddr_in(port, addr)) if fam == AF4 else (41, 74, sockaddr_in6(port, addr))
             lst = FakeUdpListener(fam, (data, [cm], 0, srcs[d['src']]))
             mux.outbuf[:] = []
+            live_before = {srcs.index(k) for k in client.udp_by_src if k in srcs}
             fresh = next_free(mux, ssnet)
             if d.get('nochan'):
                 fresh = None
@@ -1054,12 +1074,14 @@ def run_udp_seq(ctx, env, logs, case):
                     evs.append('open %d %s' % (c, hexb(payload)))
                 elif cmd == ssnet.CMD_UDP_DATA:
                     evs.append('data %d %s' % (c, hexb(payload)))
+                elif cmd == ssnet.CMD_UDP_CLOSE and not payload:
+                    evs.append('close %d' % c)
                 else:
                     evs.append('cmd%d %d %s' % (cmd, c, hexb(payload)))
             if exc is not None:
                 evs.append(excname(exc))
-            lg.add('udpacc %d %d %s %d %s %s' % (fam, d['src'], text_tok(socket.inet_ntop(fam, addr)), port,
-                                                  hexb(data), 'N' if fresh is None else fresh),
+            lg.add('udpacc %d %d %s %d %s %s %d' % (fam, d['src'], text_tok(socket.inet_ntop(fam, addr)), port,
+                                                     hexb(data), 'N' if fresh is None else fresh, clock[0]),
                    ' '.join(evs) or '-')
             n0 = len(env.udp_sends)
             for (c, cmd, payload) in frames:
@@ -1068,7 +1090,7 @@ def run_udp_seq(ctx, env, logs, case):
                 except Exception as e:  # noqa
                     exc = exc or e
             new = env.udp_sends[n0:]
-            known = any(dd['src'] == d['src'] and not dd.get('dropped') for dd in case['dgrams'][:i])
+            known = d['src'] in live_before
             if d.get('nochan') and not known:
                 d['dropped'] = True
                 ok = exc is None and not new
@@ -1081,6 +1103,7 @@ def run_udp_seq(ctx, env, logs, case):
                 bad = dict(datagram=i, expected=want,
                            observed=dict(exc=repr(exc), sends=[(f, repr(dst), hexb(p)[:40]) for f, dst, p in new]))
     finally:
+        client.time = real_time
         client.udp_by_src.clear()
         env.reset_server()
     for d in case['dgrams']:
@@ -1114,7 +1137,8 @@ def stream_udp_seq(ctx, env, logs):
             else:
                 dst = (rng.choice(pool), port_of(rng))
             data = bytes(rng.choice(b',0123456789ab') for _ in range(rng.randrange(0, 8)))
-            d = dict(src=rng.randrange(nsrc), addr=hexb(dst[0]), port=dst[1], data=hexb(data))
+            d = dict(src=rng.randrange(nsrc), addr=hexb(dst[0]), port=dst[1], data=hexb(data),
+                     dt=rng.choice([0, 0, 0, 1, 7, 29, 30, 31, 31, 45, 90]))   # around the 30 s association lifetime
             if rng.random() < 0.04:
                 d['nochan'] = True
             dgrams.append(d)
